@@ -504,6 +504,8 @@ func (e *Exec) primitive(st *State, fr *Frame, fn *ssa.Function, args []Value, p
 		p := args[0].(*PtrV)
 		l := e.locOf(p)
 		return one(st, st.LoadLoc(Loc{Key: l.Key + ".$held", Idx: l.Idx, T: types.Typ[types.Bool]}).(*Term)), true
+	case "prim_chanheld":
+		return one(st, e.chanHeld(st, args[0].(*Term))), true
 	case "prim_forall":
 		return one(st, e.primForall(st, fr, args[0].(*Term), args[1].(*FuncV))), true
 	case "prim_fresh": // the slice's backing array was allocated during the call
